@@ -17,10 +17,10 @@ import signal
 from pathlib import Path
 
 from harness import core
-from harness.gen import fstree
+from harness.gen import fstree, gipat
 
 FUEL = 3000
-GI_CLASSES = ["F-C09-GI-A", "F-C09-GI-B", "F-C09-GI-C", "F-C09-GI-D", "F-C09-GI-E"]
+GI_CLASSES = ["F-C09-GI-A", "F-C09-GI-B", "F-C09-GI-C", "F-C09-GI-D", "F-C09-GI-E", "F-C09-GI-F", "F-C09-GI-G", "F-C09-GI-H", "F-C09-GI-I"]
 
 
 ITER_LIMIT = 5  # seconds allowed for enumerating a tree of a few dozen entries
@@ -204,12 +204,16 @@ def eval_case(ctx, drv, env, base, desc, origin):
             pats = [p for p in pats if not isinstance(fstree.pathspec_ignored([p], "x"), str)]
             case = dict(case, patterns=pats)
         git_ign, ps_ign, known_dis = {}, {}, set()
+        phys_dirs = [os.path.join(base, r) for r, k, t in entries if k == "d"]
         for R in rroots:
             if R in git_ign or not os.path.isdir(R):
                 continue
             rels = [f[len(R) + 1:] for f in phys_files if f.startswith(R + "/")]
-            g = env.git.ignored(R, pats, rels)
+            drels = [f[len(R) + 1:] for f in phys_dirs if f.startswith(R + "/")]
+            g = env.git.ignored(R, pats, rels + drels)
             git_ign[R] = g
+            # the Lean reference of the pattern language against git: files and directories below the root
+            spec_vs_git(ctx, drv, case, R, pats, rels, drels, g, known_dis)
             for rel in rels:
                 p = fstree.pathspec_ignored(pats, rel)
                 ps_ign[rel] = p
@@ -229,7 +233,9 @@ def eval_case(ctx, drv, env, base, desc, origin):
             if R is None or isinstance(fstree.pathspec_ignored(extra, "x"), str):
                 continue
             rels = [f[len(R) + 1:] for f in phys_files if f.startswith(R + "/")]
-            g = env.git.ignored(R, extra, rels)
+            drels = [f[len(R) + 1:] for f in phys_dirs if f.startswith(R + "/")]
+            g = env.git.ignored(R, extra, rels + drels)
+            spec_vs_git(ctx, drv, dict(case, patterns=extra, extra_patterns=[], queries=[]), R, extra, rels, drels, g, set())
             for rel in rels:
                 p = fstree.pathspec_ignored(extra, rel)
                 ctx.count(key="gitignore:" + ("ignored" if rel in g else "kept"))
@@ -367,10 +373,149 @@ def eval_case(ctx, drv, env, base, desc, origin):
                 if mi != impl_iter:
                     ctx.corr_break("codebase.iter", case, impl_iter, mi)
                 out["model"]["queries"] = rep["queries"]
+            # the same model with the pattern semantics INSIDE (cfg.ignored := GitIgnore.ignoredStr patterns): what
+            # `member_iff_gitignore` / `iter_exact_gitignore` are about.  Compared with the implementation wherever
+            # pathspec and the reference agree about the file the spelling resolves to.
+            if rep.get("roots") == cb.directories:
+                rep2 = drv.ask({"op": "codebase_gi", "fs": fstree.fs_description(base, entries), "cwd": cwd, "roots": roots,
+                                "patterns": pats, "catchLoop": env.catch_loop, "fuel": FUEL, "queries": queries})
+                dis_abs = set(R + "/" + rel for R, rel in known_dis)
+                for q, got, mq in zip(queries, impl_q, rep2["queries"]):
+                    m = "EXC:RuntimeError" if mq["contains"] == "loop" else mq["contains"]
+                    ctx.count(key="codebase_gi:contains")
+                    if m != got and os.path.realpath(q) not in dis_abs:
+                        ctx.corr_break("codebase_gi.contains", dict(case, query=unsub_base(q, base)), got, mq)
+                mi = rep2["iter"]
+                mi = "EXC:RuntimeError" if mi == "loop" else sorted(mi)
+                if mi != impl_iter and not known_dis:
+                    ctx.corr_break("codebase_gi.iter", case, impl_iter, mi)
+                out["model_gitignore"] = {"iter": rep2["iter"], "queries": rep2["queries"]}
         ctx.sample({k: case[k] for k in ("roots", "patterns", "cwd", "stream")} | {"n_entries": len(entries), "n_queries": len(queries)})
     finally:
         os.chdir(old)
     return out
+
+
+# --------------------------------------------------------------------------
+# the Lean reference of the pattern language (Spec/GitIgnore.lean) against git and against pathspec-as-CBI-calls-it
+# --------------------------------------------------------------------------
+def spec_vs_git(ctx, drv, case, R, pats, rels, drels, g, known_dis):
+    """git is the arbiter of the reference: a difference outside the documented limitation is a break of the machinery.
+    Paths on which the reference is not git (limitation) join `known_dis` so that nothing downstream relies on them."""
+    if drv is None or not (rels or drels):
+        return
+    rep = drv.ask({"op": "gitignore", "cases": [{"patterns": pats, "paths": [{"p": r, "d": False} for r in rels]
+                                                 + [{"p": r, "d": True} for r in drels]}]})[0]
+    quirk = gipat.git_prefix_quirk(pats)
+    for rel, isdir, le in zip(rels + drels, [False] * len(rels) + [True] * len(drels), rep):
+        ctx.count(key="spec-vs-git:" + ("dir" if isdir else "file"))
+        if le != (rel in g):
+            if quirk:
+                ctx.count(key="spec-vs-git:documented-limitation")
+                known_dis.add((R, rel))
+            else:
+                ctx.corr_break("gitignore.spec_vs_git", dict(case, gitignore={"patterns": pats, "path": rel, "isdir": isdir}),
+                               {"git": rel in g}, {"lean": le})
+        elif pats and le:
+            ctx.nontrivial.add(("gi-spec", case.get("origin"), tuple(pats), rel))
+
+
+def gi_classifiers(cls):
+    return [(c, (lambda c_: (lambda _case: cls == c_))(c)) for c in GI_CLASSES]
+
+
+def eval_pattern_lists(ctx, drv, env, work, lists, origin, realroot=None, sample_real=1.0):
+    import warnings
+
+    with warnings.catch_warnings():
+        warnings.simplefilter("ignore")  # `re` warns about "[[" inside the regular expressions pathspec builds
+        return _eval_pattern_lists(ctx, drv, env, work, lists, origin, realroot, sample_real)
+
+
+def _eval_pattern_lists(ctx, drv, env, work, lists, origin, realroot=None, sample_real=1.0):
+    """three-way comparison of small pattern lists on gipat.PATHS (files that need not exist) and, through the real
+    `CodeBase.__contains__`, on the files of the tree below `realroot`"""
+    gs = gipat.git_batch(env.git, work, lists, gipat.PATHS)
+    le = gipat.lean_batch(drv, lists, gipat.PATHS)
+    le_real = gipat.lean_batch(drv, lists, gipat.REAL_FILES) if realroot else None
+    for i, l in enumerate(lists):
+        case = {"gi_patterns": l, "origin": origin}
+        spec = gipat.pathspec_spec(l)
+        quirk = gipat.git_prefix_quirk(l)
+        bad = set()
+        nclass = 0
+        for k, q in enumerate(gipat.PATHS):
+            gi = (i, q) in gs
+            ctx.count(key="patterns:" + ("ignored" if gi else "kept"))
+            if le[i][k] != gi:
+                if quirk:
+                    ctx.count(key="spec-vs-git:documented-limitation")
+                    bad.add(q)
+                else:
+                    ctx.corr_break("gitignore.spec_vs_git", dict(case, gi_path=q), {"git": gi}, {"lean": le[i][k]})
+                continue
+            if gi:
+                ctx.nontrivial.add(("gip", tuple(l), q))
+            if isinstance(spec, str):
+                dis = nclass == 0
+            else:
+                dis = gipat.pathspec_as_cbi(spec, q) != gi and nclass < 2
+            if dis:
+                nclass += 1
+                ps = spec if isinstance(spec, str) else (not gi)
+                cls, info = gipat.classify(drv, l, q, gi, ps)
+                if cls == "ILLFORMED":
+                    ctx.count(key="patterns:rejected-ill-formed")
+                    continue
+                ctx.classify(dict(case, gi_path=q, gitignore=info),
+                             f"pathspec (as CodeBase.__contains__ calls it) {'raises ' + ps if isinstance(ps, str) else 'ignores' if ps else 'keeps'} "
+                             f"{q!r} under {l!r}; git and the reference {'ignore' if gi else 'keep'} it; minimal pattern list {info['core']!r}",
+                             gi_classifiers(cls))
+        # the real code on real files: `path in CodeBase(realroot, exclude_patterns=l)` must be `not ignored`
+        if realroot and not isinstance(spec, str) and not quirk and ctx.rng.random() < sample_real:
+            try:
+                cb = env.cbmod.CodeBase(realroot, exclude_patterns=l)
+            except Exception as e:  # noqa
+                ctx.violation(f"CodeBase(exclude_patterns={l!r}) raises {type(e).__name__}: {e}", case)
+                continue
+            ndis = 0
+            for k, rel in enumerate(gipat.REAL_FILES):
+                got = impl_contains(cb, os.path.join(realroot, rel), as_path=(k % 2 == 0))
+                want = not le_real[i][k]
+                ctx.count(key="patterns:real-codebase")
+                if got != want and ndis < 2:
+                    ndis += 1
+                    cls, info = gipat.classify(drv, l, rel, not want, gipat.pathspec_as_cbi(spec, rel))
+                    # the recorded classes are about pathspec; they apply only if pathspec itself disagrees here
+                    if gipat.pathspec_as_cbi(spec, rel) == (not want):
+                        cls = None
+                    ctx.classify(dict(case, gi_path=rel, real=True, gitignore=info),
+                                 f"{rel!r} in CodeBase(root, exclude_patterns={l!r}) is {got}; git's semantics (reference) say {want}; "
+                                 f"minimal pattern list {info['core']!r}", gi_classifiers(cls))
+    ctx.sample({"gi_patterns": lists[0], "n_paths": len(gipat.PATHS)} if lists else {})
+
+
+def check_patterns(ctx, drv, env, scr):
+    if drv is None:
+        return
+    import shutil
+
+    realroot = os.path.join(scr, "_gireal")
+    for f in gipat.REAL_FILES:
+        full = os.path.join(realroot, f)
+        os.makedirs(os.path.dirname(full), exist_ok=True)
+        with open(full, "w") as fh:
+            fh.write("int v;\n")
+    blocks = [("exhaustive", [[p] for p in gipat.exhaustive(ctx.n(2, 3) if ctx.budget_scale <= 1 else 3)], 0.25),
+              ("random", gipat.random_lists(ctx.rng, ctx.n(900, 12000)), 1.0)]
+    for j, (name, lists, frac) in enumerate(blocks):
+        for o in range(0, len(lists), 4000):
+            if len(ctx.violations) >= 20:
+                break
+            work = os.path.join(scr, f"_giwork{j}_{o}")
+            os.makedirs(work)
+            eval_pattern_lists(ctx, drv, env, work, lists[o:o + 4000], f"patterns:{name}", realroot, frac)
+            shutil.rmtree(work, ignore_errors=True)
 
 
 # --------------------------------------------------------------------------
@@ -426,9 +571,23 @@ def run(ctx, drv):
                 "'..' over non-directories) x random gitignore list x working directory x root spellings; every entry queried under "
                 "several spellings. Non-trivial = distinct (case, spelling) whose spelling is not the canonical path of an existing "
                 "object, plus distinct (case, file) that git ignores under a non-empty list, plus cases with a non-empty enumeration.")
+    ctx.rule += (" Pattern-focused part: every list of 1-3 patterns built from the atoms of harness/gen/gipat.py (exhaustive up to 2 (quick) / 3 "
+                 "(thorough) atoms of the 14 basic ones, random up to 5 atoms of 31 incl. negation/re-inclusion shapes) x all 155 relative paths of "
+                 "depth <= 3 over {a, b, ab, a.c, b.c}, read three ways (Lean reference / pathspec as CodeBase.__contains__ calls it / one batched "
+                 "`git check-ignore`), and through the real `path in CodeBase(root, exclude_patterns=list)` on a 25-file tree. Non-trivial = "
+                 "distinct (list, path) that git ignores.")
     ctx.assumptions += [
-        "pathspec.GitIgnoreSpec is modelled as a parameter; it is compared with `git check-ignore --no-index` on every regular file "
-        "below every root of every generated tree (patterns installed as the work tree's top-level ignore list)",
+        "the pattern language is INSIDE the model: Spec/GitIgnore.lean (`GitIgnore.ignoredStr`), compared with `git check-ignore --no-index` "
+        "(the arbiter) on every regular file and every real directory below every root of every generated tree and on the pattern-focused "
+        "space; pathspec.GitIgnoreSpec (what the code calls) is compared with both; the model `CB.contains`/`CB.iter` runs with this matcher "
+        "(driver op codebase_gi) next to the run with pathspec's table (op codebase)",
+        "documented limitation of the reference (git departs from gitignore(5)): a run of two or more asterisks that directly follows a literal "
+        "prefix and precedes a '/' (`a**/b`) is taken by git for a leading `**/` (it ignores `ab` and `a/x/y/b`); the reference and pathspec "
+        "follow the documentation ('other consecutive asterisks are regular asterisks'); such lists (predicate gipat.git_prefix_quirk) are "
+        "counted as spec-vs-git:documented-limitation and not compared further",
+        "not generated: a backslash-quoted '/', a '/' inside a bracket expression, pattern lines containing a line break, file names that are "
+        "not valid UTF-8; pattern lines that are no well-formed patterns (unclosed '[', unknown class name, lone trailing backslash, a bare '!') "
+        "match nothing for git and the reference and are rejected by pathspec with an exception (counted as patterns:rejected-ill-formed)",
         "file systems contain regular files, directories and symbolic links only; link chains stay below the kernel's 40-link limit",
         "code-base directories are directories or do not exist (a regular file given as a directory is not generated)",
         "with several directories, 'that directory' is read as the first listed directory that contains the file",
@@ -442,6 +601,7 @@ def run(ctx, drv):
         env = Env(cbmod, scr)
         ctx.extra["d18_repaired"] = env.catch_loop
         check_pathops(ctx, drv, env, ctx.rng)
+        check_patterns(ctx, drv, env, scr)
         k = 0
         for f in sorted((core.VERIF / "corpus" / "C09").glob("*.json")):
             desc = json.loads(f.read_text())
@@ -483,6 +643,29 @@ def replay(ctx, drv, case):
         if drv is not None:
             out["model"] = drv.ask({"op": "pathops", "cwd": "/w/d", "paths": [nm]})[0]
         return out
+    if "gi_patterns" in case:
+        with core.Scratch() as d:
+            scr = os.path.realpath(str(d))
+            env = Env(cbmod, scr)
+            l, q = case["gi_patterns"], case.get("gi_path")
+            paths = [q] if q else gipat.PATHS
+            work = os.path.join(scr, "w")
+            os.makedirs(work)
+            root = os.path.join(scr, "root")
+            for f in paths:
+                os.makedirs(os.path.dirname(os.path.join(root, f)), exist_ok=True)
+                open(os.path.join(root, f), "w").close()
+            gs = gipat.git_batch(env.git, work, [l], paths)
+            spec = gipat.pathspec_spec(l)
+            cb = env.cbmod.CodeBase(root, exclude_patterns=l)
+            out = {"patterns": l, "paths": {}}
+            for f in paths:
+                out["paths"][f] = {
+                    "git_ignores": (0, f) in gs,
+                    "spec_lean_ignores": gipat.lean_ign(drv, l, f) if drv is not None else None,
+                    "pathspec_as_cbi": spec if isinstance(spec, str) else gipat.pathspec_as_cbi(spec, f),
+                    "implementation_contains": impl_contains(cb, os.path.join(root, f), False) if not isinstance(spec, str) else spec}
+            return out
     with core.Scratch() as d:
         scr = os.path.realpath(str(d))
         env = Env(cbmod, scr)
